@@ -233,6 +233,11 @@ let () =
       (match commit_index l with
        | Some v -> Printf.printf "%s\tq=%s commit=%s\n" id (d q) (d v)
        | None -> Printf.printf "%s\tpanic\n" id)
+    | id :: "AC" :: snap :: cs :: _ ->
+      (* Ready.appliedCursor: committed entry indexes (or "-") and the snapshot index *)
+      let ents = if cs = "-" then [] else
+        List.map (fun x -> { eterm = N0; eindex = n_of_dec_big x; edata = N0; esz = N0 }) (String.split_on_char ',' cs) in
+      Printf.printf "%s\tcursor=%s\n" id (d (applied_cursor ents (n_of_dec_big snap)))
     | id :: kind :: body :: _ when String.length id > 0 && id.[0] = 'c' -> core_case id kind body
     | id :: op :: args ->
       if String.length id > 0 && id.[0] = 'L' then begin
